@@ -183,3 +183,88 @@ Proof.
   eapply binv_tstep_core; eauto. intros; eapply tstep_pc_frame; eauto.
 Qed.
 
+
+(* ---- the other labels ---- *)
+Lemma binv_vstep s v s' : sinv s -> binv s -> tl_inv s -> vstep s v = Some s' -> binv s'.
+Proof.
+  intros I B It H. destruct (vstep_effect _ _ _ H) as (Hn&Hp&_). destruct (vstep_locks _ _ _ H) as (Hv&_).
+  destruct (vstep_summ _ _ _ H) as (Eq&_&_&Ep&_&Esc&_&_). pose proof (vstep_err _ _ _ H) as Ee.
+  constructor.
+  - intros y Hy. rewrite Hn in Hy. rewrite Esc, Hp. apply (b_sem _ B); auto.
+  - intros y Hy E. rewrite Hn in Hy. rewrite Ee in E. rewrite Ep, Hp. apply (b_err _ B); auto.
+  - intros t e Ht E. rewrite Hn in Ht. rewrite Hp in E. apply (b_ipc _ B t); auto.
+  - intros t k c x Ht E. rewrite Hn in Ht. rewrite Hp in E. pose proof (b_cmp _ B _ _ _ _ Ht E) as Hh.
+    destruct Eq as [Eq|(y&Ev&Eq)]; unfold head in *; rewrite Eq; [exact Hh|].
+    apply head_remove_other; [exact Hh|]. intros ->.
+    assert (Hx : (x < nthreads s)%nat). { apply (s_q _ I). apply head_in. exact Hh. }
+    eapply (tl_excl_v s x t v); eauto; [rewrite E; reflexivity|rewrite Ev; reflexivity].
+Qed.
+
+Definition label_noneg (l : label) : Prop :=
+  match l with LStart _ (OpInterrupt _ e) => e <> -1 | _ => True end.
+
+Lemma start_pc_semv o p' vc : start_pc o p' vc -> semv p' = 0.
+Proof. destruct o; cbn [start_pc]; intros H; split_all; subst; reflexivity. Qed.
+
+Lemma binv_start s t o s' : sinv s -> binv s -> start s t o = Some s' -> label_noneg (LStart t o) -> binv s'.
+Proof.
+  intros I B H Lg. destruct (start_effect _ _ _ _ H) as (Ht&Hn&Hi&_&Fr&_&_&Eq&_).
+  destruct (start_summ _ _ _ _ H) as (_&_&Ep&_&Esc&_&Hpc'). pose proof (start_err _ _ _ _ H) as Ee.
+  pose proof (start_pc_facts _ _ _ Hpc') as (F1&F2&F3&F4&F5&F6&F7).
+  constructor.
+  - intros y Hy. rewrite Hn in Hy. rewrite Esc. destruct (Nat.eq_dec y t) as [->|N]; [|rewrite Fr by auto; apply (b_sem _ B); auto].
+    rewrite (b_sem _ B _ Ht), Hi, (start_pc_semv _ _ _ Hpc'). reflexivity.
+  - intros y Hy E. rewrite Hn in Hy. rewrite Ee in E. rewrite Ep. destruct (b_err _ B _ Hy E) as [Hp Hw].
+    destruct (Nat.eq_dec y t) as [->|N]; [rewrite Hi in Hw; discriminate|rewrite Fr by auto; auto].
+  - intros t0 e Ht0 E. rewrite Hn in Ht0. destruct (Nat.eq_dec t0 t) as [->|N]; [|rewrite Fr in E by auto; apply (b_ipc _ B t0); auto].
+    destruct o; cbn [start_pc label_noneg] in *; split_all; subst;
+      match goal with E1 : pcof s' t = _ |- _ => rewrite E1 in E; cbn [ipc_e] in E; try discriminate E end.
+    inversion E; subst; assumption.
+  - intros t0 k c x Ht0 E. rewrite Hn in Ht0. destruct (Nat.eq_dec t0 t) as [->|N]; [exfalso; eapply F6; eauto|].
+    rewrite Fr in E by auto. unfold head. rewrite Eq. apply (b_cmp _ B _ _ _ _ Ht0 E).
+Qed.
+
+Lemma binv_sched s l s' : binv s -> step s l = Some s' ->
+  match l with LRun _ | LStandby _ _ | LExpire _ _ | LTick _ => True | _ => False end -> binv s'.
+Proof.
+  intros B H L. destruct (sched_effect _ _ _ H L) as (Hn&Hp&_&_&_&_&_&_&_&_&Eq).
+  destruct (sched_summ _ _ _ H L) as (_&_&Ep&_&Esc&_&_). pose proof (sched_err _ _ _ H L) as Ee.
+  constructor.
+  - intros y Hy. rewrite Hn in Hy. rewrite Esc, Hp. apply (b_sem _ B); auto.
+  - intros y Hy E. rewrite Hn in Hy. rewrite Ee in E. rewrite Ep, Hp. apply (b_err _ B); auto.
+  - intros t e Ht E. rewrite Hn in Ht. rewrite Hp in E. apply (b_ipc _ B t); auto.
+  - intros t k c x Ht E. rewrite Hn in Ht. rewrite Hp in E. unfold head. rewrite Eq. apply (b_cmp _ B _ _ _ _ Ht E).
+Qed.
+
+Lemma binv_step s l s' : sinv s -> binv s -> locks_inv s -> label_noneg l -> step s l = Some s' -> binv s'.
+Proof.
+  intros I B Il Lg H. destruct l.
+  - simpl in H. eapply binv_start; eauto.
+  - simpl in H. eapply binv_tstep; eauto.
+  - eapply binv_sched; eauto. exact Logic.I.
+  - eapply binv_sched; eauto. exact Logic.I.
+  - eapply binv_sched; eauto. exact Logic.I.
+  - simpl in H. destruct Il as (_&_&_&It). eapply binv_vstep; eauto.
+  - eapply binv_sched; eauto. exact Logic.I.
+Qed.
+
+Lemma binv_init c o ths nv : binv (init c o ths nv).
+Proof.
+  constructor.
+  - intros y _. rewrite init_pcof. unfold semc. destruct (init_getth c o ths nv y) as [E|(vc&E)]; rewrite E; reflexivity.
+  - intros y _ E. exfalso. unfold errof in E. destruct (init_getth c o ths nv y) as [E1|(vc&E1)]; rewrite E1 in E; discriminate.
+  - intros t e _ E. rewrite init_pcof in E. discriminate.
+  - intros t k c0 x _ E. rewrite init_pcof in E. discriminate.
+Qed.
+
+(* ---- consequences ---- *)
+Lemma semv_nonneg p : pc_wf p -> 0 <= semv p.
+Proof.
+  intros [W _]. unfold semv, semarg. destruct p; try lia;
+    try (match goal with |- context [pc_args ?q] => destruct (pc_args q) as [a0|] eqn:E; [specialize (W a0 E); unfold args_ok in W; lia|lia] end).
+Qed.
+Lemma semv_wait p : pc_wf p -> waitpc p = true -> 0 < semv p.
+Proof.
+  intros [W _] Hw. destruct p; cbn [waitpc] in Hw; try discriminate Hw; unfold semv, semarg; cbn [pc_args];
+    match goal with |- 0 < w_c ?a => specialize (W a eq_refl); unfold args_ok in W; lia end.
+Qed.
